@@ -30,6 +30,20 @@ Quick tour
               rootissuer   issuer = the root's subject (differs from canon below the top element)
               dupsubject   subject = subject of another X.509 element (not the certifying one)
               rootsubject  subject = the root's subject
+    extreme_dates bool (default: vary_content): the ends of a validity window that its class leaves
+            free are, boundary-first, the edge dates X.509 can carry (0001-01-01 00:00:00, 1949-12-31
+            23:59:59, 1950-01-01, 2049-12-31 23:59:59, 2050-01-01, 9999-12-31 23:59:59; UTCTime inside
+            1950..2049, GeneralizedTime outside; dates before 1950 are patched into the DER and
+            re-signed since `cryptography` refuses to write them)
+    timeline bool | "extreme": the certificate lives on a timeline of three instants material["clocks"] = {1: T1,
+            2: T2 = now, 3: T3} (3 days apart) at which the code's clock is to be frozen, one per
+            validation of the same objects; every X.509 item (also root, extra, embed) then takes
+            "window": all|until1|from3|only2 (default from "time": Valid->all, Expired->until1,
+            NotYet->from3) and material["windows"][name] = (not_before, not_after)
+            ("rot:sgx_root" for the root of trust); with time_edge the boundaries sit exactly on
+            an instant.  abstract_of(material, effects, at=k) gives the time classes at instant k.
+            "extreme": T1 in {0001-01-01, 1949-12-31 23:59:59, 1950-01-01}, T3 in {2049-12-31 23:59:59,
+            2050-01-01, 9999-12-31 23:59:59} instead of now -/+ 3 days.
     time_edge bool: validity windows touch the instant `material["clock"]` (= now truncated to the
             second) exactly: Valid -> not_before == clock and/or not_after == clock; Expired ->
             not_after == clock - 1 s; NotYet -> not_before == clock + 1 s.  Only meaningful when the
@@ -336,9 +350,25 @@ class Key:
 FAR_DAYS = (1, 2, 30, 365, 3650)      # every window edge is >= 1 day away from "now"
 
 
-def validity(time_class, now, rng, edge=False):
+def validity(time_class, now, rng, edge=False, extreme=False):
     """(not_before, not_after) for a time class; all edges at least one day away from now — unless
-    `edge`, where the window touches `now` (a whole second) exactly / misses it by one second."""
+    `edge`, where the window touches `now` (a whole second) exactly / misses it by one second.
+    With `extreme` the far ends are, half of the time, edge dates of X.509 (BOUNDARY_DATES)."""
+    nb, na = _validity(time_class, now, rng, edge)
+    if extreme:
+        sec = datetime.timedelta(seconds=1)
+        if nb < now - DAY and (time_class != "Expired") and rng.random() < 0.5:
+            nb = rng.choice([d for d in BOUNDARY_DATES if d < now - DAY])
+        elif time_class == "Expired" and rng.random() < 0.5:
+            nb = rng.choice([d for d in BOUNDARY_DATES if d < na - sec] or [nb])
+        if na > now + DAY and (time_class != "NotYet") and rng.random() < 0.5:
+            na = rng.choice([d for d in BOUNDARY_DATES if d > now + DAY])
+        elif time_class == "NotYet" and rng.random() < 0.5:
+            na = rng.choice([d for d in BOUNDARY_DATES if d > nb + sec] or [na])
+    return nb, na
+
+
+def _validity(time_class, now, rng, edge=False):
     a = rng.choice(FAR_DAYS) * DAY + datetime.timedelta(seconds=rng.randrange(0, 3600))
     b = rng.choice(FAR_DAYS) * DAY + datetime.timedelta(seconds=rng.randrange(0, 3600))
     sec = datetime.timedelta(seconds=1)
@@ -384,11 +414,133 @@ def dn(cn, style="cn_o"):
     return x509.Name(attrs)
 
 
+# ---- validity dates at the edges of what X.509 can carry (RFC 5280 4.1.2.5) -------------------------
+DATE_MIN = datetime.datetime(1, 1, 1, 0, 0, 0, tzinfo=UTC)                 # 00010101000000Z
+DATE_MAX = datetime.datetime(9999, 12, 31, 23, 59, 59, tzinfo=UTC)         # 99991231235959Z "no expiry"
+BOUNDARY_DATES = (DATE_MIN,
+                  datetime.datetime(1949, 12, 31, 23, 59, 59, tzinfo=UTC),  # last before UTCTime's range
+                  datetime.datetime(1950, 1, 1, 0, 0, 0, tzinfo=UTC),       # first UTCTime
+                  datetime.datetime(2049, 12, 31, 23, 59, 59, tzinfo=UTC),  # last UTCTime
+                  datetime.datetime(2050, 1, 1, 0, 0, 0, tzinfo=UTC),       # first GeneralizedTime
+                  DATE_MAX)
+
+
+def _der_len(n):
+    if n < 0x80:
+        return bytes([n])
+    nb = n.to_bytes((n.bit_length() + 7) // 8, "big")
+    return bytes([0x80 | len(nb)]) + nb
+
+
+def _der_time(t):
+    """UTCTime inside 1950..2049, GeneralizedTime otherwise (RFC 5280)."""
+    if 1950 <= t.year <= 2049:
+        s = t.strftime("%y%m%d%H%M%SZ").encode()
+        return b"\x17" + _der_len(len(s)) + s
+    s = ("%04d%02d%02d%02d%02d%02dZ" % (t.year, t.month, t.day, t.hour, t.minute, t.second)).encode()
+    return b"\x18" + _der_len(len(s)) + s
+
+
+def set_validity(der, nb, na, issuer_key, hash_alg=None):
+    """The certificate `der` with its Validity replaced by (nb, na) and signed again by issuer_key —
+    own DER surgery, for dates the `cryptography` builder refuses to write (before 1950)."""
+    r = der_regions(der)
+    tbs = der[r["tbs"][0]:r["tbs"][1]]
+    h, n = _tlv(tbs, 0)
+    off, kids = h, []
+    while off < h + n:
+        kh, kn = _tlv(tbs, off)
+        kids.append((off, off + kh + kn))
+        off += kh + kn
+    vi = 4 if tbs[kids[0][0]] == 0xA0 else 3          # [0] version, serial, sigalg, issuer, VALIDITY
+    body = _der_time(nb) + _der_time(na)
+    validity_der = b"\x30" + _der_len(len(body)) + body
+    content = tbs[h:kids[vi][0]] + validity_der + tbs[kids[vi][1]:h + n]
+    new_tbs = b"\x30" + _der_len(len(content)) + content
+    sig = issuer_key.sign(new_tbs, hash_alg or issuer_key.cert_hash())
+    sigalg = der[r["sigalg"][0]:r["sigalg"][1]]
+    bits = b"\x03" + _der_len(len(sig) + 1) + b"\x00" + sig
+    whole = new_tbs + sigalg + bits
+    return b"\x30" + _der_len(len(whole)) + whole
+
+
+TIMELINE_STEP = 3 * DAY                  # distance between the three clock instants of a timeline
+WINDOW_OF_TIME = {"Valid": "all", "Expired": "until1", "NotYet": "from3"}
+
+
+def timeline_clocks(now, scale="near", rng=None):
+    """The three instants (whole seconds) at which the code's clock is frozen in a timeline run.
+    near: now -/+ 3 days.  extreme: instant 1 / 3 at the edges of what X.509 dates can express
+    (0001-01-01 / 1949-12-31 23:59:59 / 1950-01-01 and 9999-12-31 23:59:59 / 2049-12-31 23:59:59 /
+    2050-01-01), instant 2 = now."""
+    t2 = now.replace(microsecond=0)
+    if scale == "extreme":
+        return {1: rng.choice(BOUNDARY_DATES[:3]), 2: t2, 3: rng.choice(BOUNDARY_DATES[3:])}
+    return {1: t2 - TIMELINE_STEP, 2: t2, 3: t2 + TIMELINE_STEP}
+
+
+def validity_window(win, clocks, rng, edge=False, extreme=False):
+    """(not_before, not_after) of a window class over the instants T1 < T2 < T3 (spec/CertV2.tla):
+    all = valid at T1..T3; until1 = valid at T1, expired at T2, T3; from3 = valid at T3 only;
+    only2 = valid at T2 only.  Without `edge` every boundary is at least a day away from every
+    instant; with `edge` boundaries sit exactly on an instant (still inside) or one second beyond.
+    With `extreme` the ends that the class leaves free are (boundary-first) the edge dates X.509 can
+    carry: 0001-01-01, 1949/1950, 2049/2050, 9999-12-31 23:59:59."""
+    t1, t2, t3 = clocks[1], clocks[2], clocks[3]
+    sec = datetime.timedelta(seconds=1)
+    far = rng.choice(FAR_DAYS) * DAY + datetime.timedelta(seconds=rng.randrange(0, 3600))
+    margin = datetime.timedelta(0) if edge else DAY
+
+    def low_end():                        # free lower end: <= t1 (- a day)
+        cands = [d for d in BOUNDARY_DATES if d <= t1 - margin] if (extreme and t1 - DATE_MIN >= margin) else []
+        if t1 - DATE_MIN > far:
+            cands += [t1 - far] * (1 if cands else 1)
+        if edge or not cands:
+            cands.append(t1)
+        return rng.choice(cands)
+
+    def high_end():
+        cands = [d for d in BOUNDARY_DATES if d >= t3 + margin] if (extreme and DATE_MAX - t3 >= margin) else []
+        if DATE_MAX - t3 > far:
+            cands.append(t3 + far)
+        if edge or not cands:
+            cands.append(t3)
+        return rng.choice(cands)
+
+    def between(a, b):                    # strictly between two instants, a day from both
+        cands = [a + DAY + datetime.timedelta(seconds=rng.randrange(0, 86400))]
+        if extreme:
+            cands += [d for d in BOUNDARY_DATES if a + DAY <= d <= b - DAY]
+        return rng.choice(cands)
+    if win == "all":
+        return low_end(), high_end()
+    if win == "until1":
+        return low_end(), (rng.choice((t1, t2 - sec)) if edge else between(t1, t2))
+    if win == "from3":
+        return (rng.choice((t3, t2 + sec)) if edge else between(t2, t3)), high_end()
+    if win == "only2":
+        if edge and rng.random() < 0.4:   # notBefore == notAfter, or a window of one second
+            return rng.choice(((t2, t2), (t2, t2 + sec), (t2 - sec, t2)))
+        return (rng.choice((t2, t1 + sec)) if edge else between(t1, t2)), \
+               (rng.choice((t2, t3 - sec)) if edge else between(t2, t3))
+    raise ValueError(win)
+
+
+def time_class_at(window, instant):
+    nb, na = window
+    return "NotYet" if instant < nb else ("Expired" if instant > na else "Valid")
+
+
 def make_x509(subject_cn, subject_key, issuer_cn, issuer_key, time_class, now, rng, ca=True,
-              content=None, style="cn_o", edge=False):
+              content=None, style="cn_o", edge=False, window=None, extreme=False):
     """DER of a certificate for subject_key signed by issuer_key (names are whatever is asked for:
-    the signature does not depend on them)."""
-    nb, na = validity(time_class, now, rng, edge)
+    the signature does not depend on them).  `window` = explicit (not_before, not_after)."""
+    nb, na = window if window is not None else validity(time_class, now, rng, edge, extreme)
+    nb, na = nb.replace(microsecond=0), na.replace(microsecond=0)
+    rewrite = None
+    if nb.year < 1950 or na.year < 1950:     # `cryptography` refuses to WRITE such dates: patch them in
+        rewrite = (nb, na)
+        nb, na = BOUNDARY_DATES[2], BOUNDARY_DATES[3]
     ct = dict(DEFAULT_CONTENT)
     ct.update(content or {})
     serial = ct["serial"] if ct["serial"] is not None else (rng.getrandbits(150) | 1)
@@ -414,7 +566,10 @@ def make_x509(subject_cn, subject_key, issuer_cn, issuer_key, time_class, now, r
         b = b.add_extension(x509.SubjectKeyIdentifier.from_public_key(subject_key.pub), critical=False)
     h = {"sha384": hashes.SHA384(), "sha512": hashes.SHA512()}.get(ct["hash"]) or issuer_key.cert_hash()
     cert = b.sign(issuer_key.priv, h)
-    return cert.public_bytes(serialization.Encoding.DER)
+    out = cert.public_bytes(serialization.Encoding.DER)
+    if rewrite:
+        out = set_validity(out, rewrite[0], rewrite[1], issuer_key, h)
+    return out
 
 
 def der_to_b64(der, newlines=False):
@@ -455,6 +610,7 @@ def default_spec(depth=2):
         "embed": None,
         "reparent": {},
         "time_edge": False,
+        "timeline": False,
         "vary_content": False,
         "rot": "right",
         "shuffle": False,
@@ -487,24 +643,37 @@ def build(spec, rng, now=None):
     sp.update(spec)
     keys, der, pem = {}, {}, {}
     edge = bool(sp.get("time_edge"))
-    if edge:
+    timeline = bool(sp.get("timeline"))
+    if edge or timeline:
         now = now.replace(microsecond=0)        # the instant the code's clock has to be frozen at
+    scale = "extreme" if sp.get("timeline") == "extreme" else "near"
+    clocks = timeline_clocks(now, scale, rng) if timeline else None
+    extreme = bool(sp.get("extreme_dates", sp.get("vary_content"))) or scale == "extreme"
+    windows = {}
     vary = bool(sp.get("vary_content"))
     style = rng.choice(("cn", "cn_o", "full")) if vary else "cn_o"
     _mk = globals()["make_x509"]
 
-    def make_x509(scn, skey, icn, ikey, time_class, now_, rng_, ca=True, content=None, use_edge=False):
+    def make_x509(scn, skey, icn, ikey, time_class, now_, rng_, ca=True, content=None, use_edge=False,
+                  tag=None, win=None):
         if content is None and vary:
             content = random_content(rng_)
+        window = None
+        if timeline:        # tagged certificates follow their window class, helpers are always valid
+            window = validity_window((win or WINDOW_OF_TIME[time_class]) if tag else "all", clocks, rng_,
+                                     edge and tag is not None, extreme)
+            if tag:
+                windows[tag] = window
         return _mk(scn, skey, icn, ikey, time_class, now_, rng_, ca=ca, content=content, style=style,
-                   edge=use_edge)
+                   edge=use_edge, window=window, extreme=extreme)
     # --- root of trust -------------------------------------------------------------------------
     root_spec = {"curve": "P256", "time": "Valid"}
     root_spec.update(sp.get("root") or {})
     keys[ROOT_NAME] = Key(root_spec["curve"])
     root_cn = "verif root %d" % rng.getrandbits(32)
     der[ROOT_NAME] = make_x509(root_cn, keys[ROOT_NAME], root_cn, keys[ROOT_NAME],
-                               root_spec["time"], now, rng)
+                               root_spec["time"], now, rng, tag="rot:" + ROOT_NAME,
+                               win=root_spec.get("window"))
     cns = {ROOT_NAME: root_cn}
     # a foreign root (somebody else's self-signed CA): may be embedded, may issue the top element,
     # may be handed over as root of trust
@@ -558,7 +727,8 @@ def build(spec, rng, now=None):
         elif naming != "canon":
             raise ValueError(naming)
         der[n] = make_x509(cns[n], keys[n], issuer_cn, signer, xs.get("time", "Valid"), now, rng,
-                           ca=(i < len(sp["x509"]) - 1), content=xs.get("content"), use_edge=edge)
+                           ca=(i < len(sp["x509"]) - 1), content=xs.get("content"), use_edge=edge,
+                           tag=n, win=xs.get("window"))
         if sig == "swap":
             pending_swaps.append(n)
         elements[n] = {"name": n, "type": "x509_pem", "signed_by": parent}
@@ -570,7 +740,7 @@ def build(spec, rng, now=None):
         keys[n] = keys[xs["samekey_as"]] if xs.get("samekey_as") else Key(xs.get("curve", "P256"))
         signer = keys[p] if xs.get("sig", "parent") != "other" else other_key(keys[p])
         der[n] = make_x509(cns[n], keys[n], cns[p], signer, xs.get("time", "Valid"), now, rng,
-                           use_edge=edge)
+                           use_edge=edge, tag=n, win=xs.get("window"))
         elements[n] = {"name": n, "type": "x509_pem", "signed_by": p}
     # an X.509 element "carrying the signature of another element": splice the signature of a
     # sibling certificate issued by the same key for another subject into this certificate
@@ -650,11 +820,13 @@ def build(spec, rng, now=None):
     if emb:
         ekey = keys[ROOT_NAME] if emb["kind"] == "genuine" else keys["foreign_root"]
         ecn = root_cn if emb["kind"] == "genuine" else cns["foreign_root"]
-        if emb.get("time", "Valid") == "Valid" and emb.get("sig", "self") == "self":
+        if emb.get("time", "Valid") == "Valid" and emb.get("sig", "self") == "self" \
+                and emb.get("window", "all") == "all":
             eder = der[ROOT_NAME] if emb["kind"] == "genuine" else foreign_der
         else:
             esigner = ekey if emb.get("sig", "self") == "self" else other_key(ekey)
-            eder = make_x509(ecn, ekey, ecn, esigner, emb.get("time", "Valid"), now, rng, use_edge=edge)
+            eder = make_x509(ecn, ekey, ecn, esigner, emb.get("time", "Valid"), now, rng, use_edge=edge,
+                             tag=ROOT_NAME, win=emb.get("window"))
         der["embedded:" + ROOT_NAME] = eder
         elements[ROOT_NAME] = {"name": ROOT_NAME, "type": "x509_pem", "signed_by": ROOT_NAME,
                                "message": der_to_b64(eder, sp.get("pem_newlines", False))}
@@ -668,13 +840,26 @@ def build(spec, rng, now=None):
     roots = {"right": pem[ROOT_NAME]}
     fresh_key = Key(root_spec["curve"])
     keys["fresh_root"] = fresh_key
-    roots["fresh"] = der_to_pem(make_x509(root_cn, fresh_key, root_cn, fresh_key, "Valid", now, rng))
+    rwin = root_spec.get("window")          # (timeline) every root that may be handed over has the
+    rtime = root_spec["time"]               # root's window
+    roots["fresh"] = der_to_pem(make_x509(root_cn, fresh_key, root_cn, fresh_key, rtime if timeline else "Valid",
+                                          now, rng, tag="rot:fresh" if timeline else None, win=rwin))
     roots["samekey"] = der_to_pem(make_x509(root_cn + " reissued", keys[ROOT_NAME],
-                                            root_cn + " reissued", keys[ROOT_NAME], "Valid", now, rng))
-    roots["top"] = pem[xnames[0]] if xnames else pem[ROOT_NAME]
-    roots["foreign"] = der_to_pem(foreign_der)
+                                            root_cn + " reissued", keys[ROOT_NAME],
+                                            rtime if timeline else "Valid", now, rng,
+                                            tag="rot:samekey" if timeline else None, win=rwin))
+    if timeline and xnames:                 # a root certificate over the top element's key
+        roots["top"] = der_to_pem(make_x509(cns[xnames[0]], keys[xnames[0]], cns[xnames[0]], keys[xnames[0]],
+                                            rtime, now, rng, tag="rot:top", win=rwin))
+        roots["foreign"] = der_to_pem(make_x509(cns["foreign_root"], keys["foreign_root"],
+                                                cns["foreign_root"], keys["foreign_root"], rtime, now, rng,
+                                                tag="rot:foreign", win=rwin))
+    else:
+        roots["top"] = pem[xnames[0]] if xnames else pem[ROOT_NAME]
+        roots["foreign"] = der_to_pem(foreign_der)
     material = {
-        "now": now, "clock": now if edge else None, "keys": keys, "der": der, "pem": pem,
+        "now": now, "clock": now if (edge or timeline) else None, "clocks": clocks, "windows": windows,
+        "keys": keys, "der": der, "pem": pem,
         "order": order, "spec": sp,
         "names": {"x509": xnames, "attkey": an, "quote": qn, "root": ROOT_NAME},
         "attkey": {"report_body": qe_body, "fields": qe_fields, "key_xy": att_xy,
@@ -916,10 +1101,21 @@ def _curve_class(key):
     return "P256" if key.curve == "P256" else "Other"
 
 
-def abstract_of(mat, effects=None):
-    """Abstract certificate realised by a built certificate (+ effects of byte flips per element)."""
+def abstract_of(mat, effects=None, at=None):
+    """Abstract certificate realised by a built certificate (+ effects of byte flips per element).
+    On a timeline (`material["clocks"]`) the time classes are those at instant `at` (1|2|3, default 2),
+    computed from the windows the builder chose."""
     effects = effects or {}
     sp = mat["spec"]
+    clocks, windows = mat.get("clocks"), mat.get("windows") or {}
+
+    def time_win(tag, item):
+        """(time class now, window class) of a certificate."""
+        t = item.get("time", "Valid")
+        w = item.get("window") or WINDOW_OF_TIME[t]
+        if clocks and tag in windows:
+            t = time_class_at(windows[tag], clocks[at or 2])
+        return t, w
     rep = sp.get("reparent") or {}
     keyid = {ROOT_NAME: ROOT_NAME}
     for xs in sp["x509"]:
@@ -937,9 +1133,10 @@ def abstract_of(mat, effects=None):
             signer = "foreign"
         else:
             signer = keyid[orig_parent] if sig_ok else "other"
+        t, w = time_win(n, xs)
         return {"kind": "x509", "by": rep.get(n, orig_parent), "key": keyid[n],
                 "sigBy": signer, "naming": xs.get("naming", "canon"),
-                "time": xs.get("time", "Valid"), "curve": _curve_class(mat["keys"][n]),
+                "time": t, "win": w, "curve": _curve_class(mat["keys"][n]),
                 "binds": True, "keyValid": True}
     parent = ROOT_NAME
     for xs in sp["x509"]:
@@ -951,9 +1148,9 @@ def abstract_of(mat, effects=None):
     if emb:
         ek = ROOT_NAME if emb["kind"] == "genuine" else "foreign"
         self_ok = emb.get("sig", "self") == "self" and "sig" not in effects.get(ROOT_NAME, ())
+        t, w = time_win(ROOT_NAME, emb)
         els[ROOT_NAME] = {"kind": "x509", "by": ROOT_NAME, "key": ek, "sigBy": ek if self_ok else "other",
-                          "naming": "canon",
-                          "time": emb.get("time", "Valid"), "curve": "P256", "binds": True,
+                          "naming": "canon", "time": t, "win": w, "curve": "P256", "binds": True,
                           "keyValid": True}
     a = dict(default_spec()["attkey"])
     a.update(sp.get("attkey") or {})
@@ -962,7 +1159,7 @@ def abstract_of(mat, effects=None):
     els[an] = {"kind": "attkey", "by": rep.get(an, parent), "key": an, "naming": "na",
                "sigBy": keyid[parent] if (a.get("sig", "parent") == "parent" and "sig" not in eff)
                else "other",
-               "time": "na", "curve": "P256",
+               "time": "na", "win": "na", "curve": "P256",
                "binds": a.get("bind", "ok") in ("ok", "ok_tail") and a.get("key", "ok") != "swapped"
                and "bind" not in eff,
                "keyValid": a.get("key", "ok") != "offcurve" and "keybad" not in eff}
@@ -972,7 +1169,7 @@ def abstract_of(mat, effects=None):
     eff = effects.get(qn, ())
     els[qn] = {"kind": "quote", "by": rep.get(qn, an), "key": "nokey", "naming": "na",
                "sigBy": an if (q.get("sig", "parent") == "parent" and "sig" not in eff) else "other",
-               "time": "na", "curve": "na",
+               "time": "na", "win": "na", "curve": "na",
                "binds": q.get("bind", "ok") in ("ok", "ok_tail") and "bind" not in eff,
                "keyValid": True}
     which = sp.get("rot", "right")
@@ -984,6 +1181,28 @@ def abstract_of(mat, effects=None):
         rkey, rcurve = "foreign", "P256"
     else:
         rkey, rcurve = "wrong", _curve_class(mat["keys"]["fresh_root"])
-    rot = {"kind": "x509", "by": ROOT_NAME, "key": rkey, "sigBy": ROOT_NAME, "time": "Valid", "naming": "canon",
-           "curve": rcurve, "binds": True, "keyValid": True}
+    root_item = {"time": "Valid"}
+    root_item.update(sp.get("root") or {})
+    rt, rw = time_win("rot:" + (ROOT_NAME if which == "right" else which), root_item)
+    if not clocks:
+        rt, rw = "Valid", "all"        # (off a timeline the handed-over roots are always in their period)
+    rot = {"kind": "x509", "by": ROOT_NAME, "key": rkey, "sigBy": ROOT_NAME, "time": rt, "win": rw,
+           "naming": "canon", "curve": rcurve, "binds": True, "keyValid": True}
     return {"cert": els, "rot": rot, "target": qn, "unspecified": unspecified}
+
+
+def retime(mat, abstract, k):
+    """The abstract certificate `abstract` (as returned by realise / apply_flips for instant 2) with the
+    time classes every X.509 element and the root of trust have at instant k of the timeline."""
+    out = copy.deepcopy(abstract)
+    clocks, windows = mat.get("clocks"), mat.get("windows") or {}
+    if not clocks:
+        return out
+    for n, e in out["cert"].items():
+        if e["kind"] == "x509" and n in windows:
+            e["time"] = time_class_at(windows[n], clocks[k])
+    which = mat["spec"].get("rot", "right")
+    tag = "rot:" + (ROOT_NAME if which == "right" else which)
+    if tag in windows:
+        out["rot"]["time"] = time_class_at(windows[tag], clocks[k])
+    return out
